@@ -10,7 +10,7 @@ seeds=("$@")
 if [ -n "$(git -C /repo status --porcelain)" ]; then echo "/repo not clean"; exit 2; fi
 for s in "${seeds[@]}"; do
   pid=$(python3 -c "import json;print(json.load(open('seeded/$s/meta.json'))['breaks'])")
-  for patch in seeded/$s/patch.diff seeded/$s/extra_*.diff; do
+  for patch in seeded/$s/*.diff; do
     [ -f "$patch" ] || continue
     name="$s/$(basename $patch)"
     cp evidence/$pid.json .build/evidence_keep/$pid.json 2>/dev/null
